@@ -538,7 +538,9 @@ fn shrink(case: &Case, guard: Option<GuardPos>, kind: &str, run: &mut dyn FnMut(
         *runs += 1;
         run(c, g).fail_kind() == Some(kind)
     };
-    if g.is_some() && !kind.starts_with("fault") && still(&cur, None, &mut runs) {
+    // Is the guard page needed at all? (Some faults, e.g. a read through a
+    // dangling pointer, do not depend on it.)
+    if g.is_some() && still(&cur, None, &mut runs) {
         g = None;
     }
     let simple: Vec<Box<dyn Fn(&mut Case)>> = vec![
